@@ -241,11 +241,11 @@ def expr(case, out):
         tf = "None"
         if o.get("transform"):
             L = cpose(U(out["loaded"], (4, 4)))
-            A = "(invert_loaded (fun x => newton_cbrt 200 x (nadd x n1)) %s)" % L if o["transform"]["invert"] else L
+            A = "(invert_loaded (fun x => newton_cbrt 400 x (nadd x n1)) %s)" % L if o["transform"]["invert"] else L
             tf = "(Some (%s, %s, %s, %s))" % (A, "true" if o["transform"]["right"] else "false",
                                               "true" if o["transform"]["propagate"] else "false", "true" if out.get("sim") else "false")
         pl = "None" if not o.get("plane") else "(Some %s)" % {"xy": "XY", "xz": "XZ", "yz": "YZ"}[o["plane"]]
-        items.append("match run qfm_shep (fun x => newton_cbrt 200 x (nadd x n1)) %s (init_poses [%s] None) (tail_ops %s %s) with "
+        items.append("match run qfm_shep (fun x => newton_cbrt 400 x (nadd x n1)) %s (init_poses [%s] None) (tail_ops %s %s) with "
                      "Some s => map plist (poses_of %s s) | None => [] end"
                      % (cf(EPS4), "; ".join(cpose(p) for p in pre), tf, pl, cf(EPS4)))
     return "[" + "; ".join(items) + "]"
